@@ -239,6 +239,7 @@ fn catalog() -> i32 {
                     src_age: 0,
                     roots: vec![],
                     out_sub: String::new(),
+                    obstacle: 0,
                 };
                 let out = sc.out();
                 let o = exec::run_invocation(&mut sc, &tree, &inv, &out);
